@@ -154,7 +154,7 @@ Section Sound.
     end.
   Proof.
     induction fuelx as [|fuelx IH]; intros st s oracle S r Hh Hi Hc; cbn [exec]; auto.
-    destruct st as [| s1 s2 | x a | cs x g args | d x | c s1 s2 | c body | a | x ik j | cs d x xi ik m args]; cbn in Hh, Hi.
+    destruct st as [| s1 s2 | x a | cs x g args | d x | c s1 s2 | c body | a | x ik j | cs d x xi ik m args | a er | cs x xe g args]; cbn in Hh, Hi.
     - inversion Hh; subst. exact Hc.
     - destruct (hreach vars hf s1 S) as [r1|] eqn:E1; [|discriminate].
       destruct (hreach vars hf s2 (h_norm r1)) as [r2|] eqn:E2; [|discriminate]. inversion Hh; subst. cbn.
@@ -181,7 +181,7 @@ Section Sound.
       destruct (nth_error (p_funcs prog) g) as [fd|].
       + destruct (exec prog fuelx (f_body fd) (bind_params 0 (map (eval_atom s) args) ++ globals_of s) oracle) as [s' o'|v s' o'|d|]; auto.
         * apply Step. now apply sim_after.
-        * apply Step. now apply sim_after.
+        * destruct (sget s' VERR); auto. apply Step. now apply sim_after.
       + destruct x as [y|]; [|exists a0; auto].
         apply covers_fold_add. left. destruct y as [y|k]; cbn.
         * exists (sset a0 (VL y) (if anil (sget s (VL y)) then VNil else VPtr None)). split.
@@ -259,7 +259,46 @@ Section Sound.
       match goal with |- context [exec prog fuelx (f_body fd) ?st0 oracle] =>
         destruct (exec prog fuelx (f_body fd) st0 oracle) as [s' o'|v s' o'|d'|]; auto end.
       + apply Step. now apply sim_after.
-      + apply Step. now apply sim_after.
+      + destruct (sget s' VERR); auto. apply Step. now apply sim_after.
+    - (* return a, er *)
+      inversion Hh; subst. cbn. intros Hv. destruct Hc as [a0 [Ha Hs]].
+      apply existsb_exists. exists a0. split; auto. apply existsb_exists.
+      destruct (hvals_sound s a0 a Hs) as [v' [Hv' Ev]]; [intros y Hy; apply Hi; apply in_or_app; auto|].
+      exists v'. split; auto. rewrite Ev, Hv. reflexivity.
+    - (* x, xe = g(args) *)
+      inversion Hh; subst. cbn. destruct Hc as [a0 [Ha Hs]].
+      set (S1 := match x with
+                 | Some y => fold_right (st_add vars) [] (flat_map (fun s0 => assign_all vars s0 y [VNil; VPtr None]) S)
+                 | None => S end).
+      assert (Step : forall s1 v ev, sim vars s1 a0 ->
+                covers vars (match xe with
+                             | Some y => fold_right (st_add vars) [] (flat_map (fun s0 => assign_all vars s0 y [VNil; VPtr None]) S1)
+                             | None => S1 end)
+                       (match xe with Some y => sset (match x with Some y' => sset s1 y' v | None => s1 end) y ev
+                                    | None => match x with Some y' => sset s1 y' v | None => s1 end end)).
+      { intros s1 v ev H1.
+        assert (C1 : covers vars S1 (match x with Some y' => sset s1 y' v | None => s1 end)).
+        { subst S1. destruct x as [y|]; [|exists a0; auto].
+          eapply (assign_covers S s1 a0 y v (if anil v then VNil else VPtr None) (fun _ => [VNil; VPtr None])); eauto;
+            destruct v; cbn; auto. }
+        destruct xe as [ye|]; auto. destruct C1 as [a1 [Ha1 Hs1]].
+        eapply (assign_covers S1 _ a1 ye ev (if anil ev then VNil else VPtr None) (fun _ => [VNil; VPtr None])); eauto;
+          destruct ev; cbn; auto. }
+      destruct (nth_error (p_funcs prog) g) as [fd|].
+      + destruct (exec prog fuelx (f_body fd) (bind_params 0 (map (eval_atom s) args) ++ globals_of s) oracle) as [s' o'|v s' o'|d|]; auto.
+        * apply (Step _ VNil VNil). now apply sim_after.
+        * apply (Step _ v (sget s' VERR)). now apply sim_after.
+      + (* no such function: nothing happens; the state is one of those the abstraction allows *)
+        assert (E : forall s0 z w, sim vars (sset s0 z (sget s0 z)) w -> sim vars s0 w).
+        { intros s0 z w H y Hy. rewrite <- (H y Hy). rewrite sget_sset. destruct (var_eqb z (VL y)) eqn:Ez; auto.
+          apply var_eqb_eq in Ez. now subst. }
+        pose proof (Step s (match x with Some y' => sget s y' | None => VNil end)
+                           (match xe with Some y => sget (match x with Some y' => sset s y' (sget s y') | None => s end) y | None => VNil end) Hs) as [w [Hw Hsw]].
+        exists w. split; auto.
+        destruct xe as [ye|]; destruct x as [y|]; auto.
+        * apply (E s y). apply (E _ ye). exact Hsw.
+        * apply (E s ye). exact Hsw.
+        * apply (E s y). exact Hsw.
   Qed.
 End Sound.
 
